@@ -182,7 +182,7 @@ def oracle(case, out):
                     elif (ka == "reg" and kb == "reg" or off) and got != want:
                         v.append(("reg-not-union", "delivery %d: register ops at %s are %s, expected the union %s"
                                   % (i, k, sorted(got), sorted(want))))
-        return v
+        return v + pv.kind_change_violations(case, out)
     # overlapping deliveries: whatever the interleaving, nothing validly delivered may be lost
     before, after = pv.dump_map(out["store_before"]), pv.dump_map(out["store"])
     for k in keys:
@@ -213,7 +213,7 @@ def oracle(case, out):
             if not want <= got:
                 v.append(("concurrent-lost-update", "overlapping deliveries to %s (schedule %s): register operation(s) %s validly delivered but not stored"
                           % (k, case["schedule"], sorted(want - got))))
-    return v
+    return v + pv.kind_change_violations(case, out)
 
 
 # ------------------------------------------------------------------------------------------- generator
@@ -338,7 +338,7 @@ def concurrent_cases(rng, thorough):
 
 def gen(ctx):
     thorough = ctx.tier != "quick"
-    cs = concurrent_cases(ctx.rng, thorough)
+    cs = concurrent_cases(ctx.rng, thorough) + pv.cross_kind_cases()
     n = 350 if not thorough else 6000
     cs += [rand_history(ctx.rng) for _ in range(n)]
     return cs
